@@ -126,6 +126,7 @@ func c09Guard(p *Prog, r *Report) {
 		front := next
 		root.Fields["next"] = front // the list is circular: the root's successor is the front
 		var yielded []int64
+		var f *Flat
 		env := &Env{P: p, Pkg: fi.Pkg, Vars: map[types.Object]*Val{seqParam: intVal(horizon)}}
 		env.Hook = func(env *Env, e ast.Expr) (*Val, bool) {
 			c, ok := e.(*ast.CallExpr)
@@ -138,7 +139,12 @@ func c09Guard(p *Prog, r *Report) {
 			if env.P.callIs(env.Pkg, c, "(*internal/model/core.List).Front") {
 				return front, true
 			}
-			if yield != nil && objOf(env.Pkg.TypesInfo, c.Fun) == yield && len(c.Args) == 1 {
+			// the consumer: the walker's own parameter, or the parameter of a spliced-in helper it was handed to
+			isYield := false
+			if yo := objOf(env.Pkg.TypesInfo, c.Fun); yo != nil && yield != nil {
+				isYield = yo == yield || (f != nil && f.CanonObj(yo) == yield)
+			}
+			if isYield && len(c.Args) == 1 {
 				v := env.eval(c.Args[0])
 				for v != nil && v.Ptr != nil {
 					v = v.Ptr
@@ -171,7 +177,7 @@ func c09Guard(p *Prog, r *Report) {
 			env.Vars[outer] = &Val{Ptr: &Val{Fields: map[string]*Val{fileFields.List: {Tag: "list"}}}}
 		}
 		// helpers of the walker are spliced in, the list's own methods are not (Front is answered by the scenario)
-		f := p.FlatInlExcept(it.FI, p.methodsOf("internal/model/core", "List")...)
+		f = p.FlatInlExcept(it.FI, p.methodsOf("internal/model/core", "List")...)
 		f.WalkMaxVisits = 12
 		f.WalkExprStmts = true
 		_, _, err := f.WalkPath(env)
